@@ -39,6 +39,9 @@ func CallConcurrently(ctx context.Context, fns ...CallConcurrentlyFunc) error {
 	}
 
 	var waitCh <-chan struct{}
+	// started is only touched by this goroutine: running must not be read
+	// outside of the lock, the workers may have decremented it already.
+	var started int
 	bcast.HoldLock(func(broadcast func(), getWaitCh func() <-chan struct{}) {
 		waitCh = getWaitCh()
 		for _, fn := range fns {
@@ -46,10 +49,11 @@ func CallConcurrently(ctx context.Context, fns ...CallConcurrentlyFunc) error {
 				continue
 			}
 			running++
+			started++
 			go callFunc(fn)
 		}
 	})
-	if running == 0 {
+	if started == 0 {
 		return nil
 	}
 
